@@ -10,6 +10,8 @@ non-square I/O); the state space of a composite is the `Sum` type, so its dimens
 sum of the operands' dimensions (`card_states_*`).
 -/
 import CtrlVerif.Lemmas.SS
+import CtrlVerif.Model.SSDyn
+import Mathlib.Tactic.NormNum.Basic
 
 namespace CtrlVerif.C02
 
@@ -205,6 +207,170 @@ theorem invQ_spec {n : Type*} [Fintype n] [DecidableEq n] (F : Matrix n n K) (h 
   · rw [Matrix.smul_mul, Matrix.adjugate_mul, smul_smul, inv_mul_cancel₀ h, one_smul]
   · rw [Matrix.mul_smul, Matrix.mul_adjugate, smul_smul, inv_mul_cancel₀ h, one_smul]
 
+/-! ### `lft` -/
+
+section lft
+
+variable {σ' κ μ : Type*} [Fintype σ'] [DecidableEq σ']
+variable [Fintype o₂] [DecidableEq o₂] [Fintype ι₂] [DecidableEq ι₂]
+variable [Fintype ι₁] [DecidableEq ι₁] [Fintype κ] [DecidableEq κ]
+
+/-- `G.lft(H, nu, ny)` (lower linear fractional transformation).  `G` has inputs `(w₁, u)`,
+outputs `(z₁, y)` and responds with `[[Y11, Y12], [Y21, Y22]]`; `H` has inputs `(y, w₂)`,
+outputs `(u, z₂)` and responds with `[[Yb11, Yb12], [Yb21, Yb22]]`.  With `Finv` a left inverse
+of the code's `F = [[I, -D22], [-Dbar11, I]]` (well-posed loop) and loop signals `Ys`, `Us`
+(the responses of `y`, `u` to the exogenous inputs `(w₁, w₂)`) solving the loop equations
+`y = Y21 w₁ + Y22 u`, `u = Yb11 y + Yb12 w₂` at `s`, the system built by the code responds with
+`z₁ = Y11 w₁ + Y12 u`, `z₂ = Yb21 y + Yb22 w₂`. -/
+theorem lft_resp (G : SS σ (ι₁ ⊕ ι₂) (o₁ ⊕ o₂) K) (H : SS σ' (o₂ ⊕ κ) (ι₂ ⊕ μ) K)
+    (Finv : Matrix (o₂ ⊕ ι₂) (o₂ ⊕ ι₂) K) (hF : Finv * SS.lftF G H = 1) (s : K)
+    {Y11 : Matrix o₁ ι₁ K} {Y12 : Matrix o₁ ι₂ K} {Y21 : Matrix o₂ ι₁ K} {Y22 : Matrix o₂ ι₂ K}
+    {Yb11 : Matrix ι₂ o₂ K} {Yb12 : Matrix ι₂ κ K} {Yb21 : Matrix μ o₂ K} {Yb22 : Matrix μ κ K}
+    (h₁ : G.Resp s (fromBlocks Y11 Y12 Y21 Y22)) (h₂ : H.Resp s (fromBlocks Yb11 Yb12 Yb21 Yb22))
+    (Ys : Matrix o₂ (ι₁ ⊕ κ) K) (Us : Matrix ι₂ (ι₁ ⊕ κ) K)
+    (hY : Ys = Y21 * fromCols 1 0 + Y22 * Us)
+    (hU : Us = Yb11 * Ys + Yb12 * fromCols 0 1) :
+    (G.lft H Finv).Resp s
+      (fromRows (Y11 * fromCols 1 0 + Y12 * Us) (Yb21 * Ys + Yb22 * fromCols 0 1)) := by
+  obtain ⟨X1, X2, e1, e2, rfl, rfl, rfl, rfl⟩ := h₁.blocks
+  obtain ⟨Xb1, Xb2, eb1, eb2, rfl, rfl, rfl, rfl⟩ := h₂.blocks
+  rw [lft_eq_compact]
+  have key := loop_resp (fromBlocks G.A 0 0 H.A) (fromBlocks G.B.toCols₁ 0 0 H.B.toCols₂)
+    (fromBlocks 0 G.B.toCols₂ H.B.toCols₁ 0) (fromBlocks G.C.toRows₁ 0 0 H.C.toRows₂)
+    (fromBlocks G.D.toBlocks₁₁ 0 0 H.D.toBlocks₂₂) (fromBlocks 0 G.D.toBlocks₁₂ H.D.toBlocks₂₁ 0)
+    (fromBlocks G.C.toRows₂ 0 0 H.C.toRows₁) (fromBlocks G.D.toBlocks₂₁ 0 0 H.D.toBlocks₁₂)
+    (SS.lftF G H) Finv hF s
+    (fromRows (X1 * fromCols 1 0 + X2 * Us) (Xb1 * Ys + Xb2 * fromCols 0 1)) (fromRows Ys Us)
+    ?_ ?_
+  · convert key using 1
+    rw [fromBlocks_diag_eq_fromRows G.D.toBlocks₁₁, fromBlocks_mul_fromRows,
+      fromBlocks_mul_fromRows, fromRows_add_fromRows, fromRows_add_fromRows]
+    congr 1
+    · simp only [Matrix.add_mul, Matrix.mul_add, Matrix.mul_assoc, Matrix.zero_mul]
+      abel
+    · simp only [Matrix.add_mul, Matrix.mul_add, Matrix.mul_assoc, Matrix.zero_mul]
+      abel
+  · rw [smul_one_sub_fromBlocks, fromBlocks_diag_eq_fromRows G.B.toCols₁, fromBlocks_mul_fromRows,
+      fromBlocks_mul_fromRows, fromRows_add_fromRows]
+    congr 1
+    · simp only [Matrix.mul_add, ← Matrix.mul_assoc, e1, e2, Matrix.zero_mul, neg_zero]
+      abel
+    · simp only [Matrix.mul_add, ← Matrix.mul_assoc, eb1, eb2, Matrix.zero_mul, neg_zero]
+      abel
+  · rw [fromBlocks_diag_eq_fromRows G.D.toBlocks₂₁, SS.lftF, fromBlocks_mul_fromRows,
+      fromBlocks_mul_fromRows, fromRows_add_fromRows]
+    congr 1
+    · conv_lhs => rw [hY]
+      simp only [Matrix.add_mul, Matrix.mul_add, Matrix.mul_assoc, Matrix.zero_mul, Matrix.one_mul,
+        Matrix.neg_mul]
+      abel
+    · conv_lhs => rw [hU]
+      simp only [Matrix.add_mul, Matrix.mul_add, Matrix.mul_assoc, Matrix.zero_mul, Matrix.one_mul,
+        Matrix.neg_mul]
+      abel
+
+/-- `lft_resp` with the loop solved: `N` a right inverse of `I - Y22 Yb11` at `s`.  The result is
+the lower LFT interconnection
+`[[Y11 + Y12 Yb11 (I - Y22 Yb11)⁻¹ Y21, Y12 (I - Yb11 Y22)⁻¹ Yb12],
+  [Yb21 (I - Y22 Yb11)⁻¹ Y21, Yb22 + Yb21 (I - Y22 Yb11)⁻¹ Y22 Yb12]]`
+where `(I - Yb11 Y22)⁻¹ = I + Yb11 N Y22` (`push_through`) and
+`Y22 (I - Yb11 Y22)⁻¹ = (I - Y22 Yb11)⁻¹ Y22`. -/
+theorem lft_resp_inv (G : SS σ (ι₁ ⊕ ι₂) (o₁ ⊕ o₂) K) (H : SS σ' (o₂ ⊕ κ) (ι₂ ⊕ μ) K)
+    (Finv : Matrix (o₂ ⊕ ι₂) (o₂ ⊕ ι₂) K) (hF : Finv * SS.lftF G H = 1) (s : K)
+    {Y11 : Matrix o₁ ι₁ K} {Y12 : Matrix o₁ ι₂ K} {Y21 : Matrix o₂ ι₁ K} {Y22 : Matrix o₂ ι₂ K}
+    {Yb11 : Matrix ι₂ o₂ K} {Yb12 : Matrix ι₂ κ K} {Yb21 : Matrix μ o₂ K} {Yb22 : Matrix μ κ K}
+    (h₁ : G.Resp s (fromBlocks Y11 Y12 Y21 Y22)) (h₂ : H.Resp s (fromBlocks Yb11 Yb12 Yb21 Yb22))
+    (N : Matrix o₂ o₂ K) (hN : (1 - Y22 * Yb11) * N = 1) :
+    (G.lft H Finv).Resp s
+      (fromBlocks (Y11 + Y12 * Yb11 * N * Y21) (Y12 * (1 + Yb11 * N * Y22) * Yb12)
+        (Yb21 * N * Y21) (Yb22 + Yb21 * N * Y22 * Yb12)) := by
+  have hN' : N = 1 + Y22 * (Yb11 * N) := by
+    have : N - Y22 * (Yb11 * N) = 1 := by
+      rw [← hN, Matrix.sub_mul, Matrix.one_mul, Matrix.mul_assoc]
+    rw [← this]; abel
+  have key := lft_resp G H Finv hF s h₁ h₂
+    (fromCols (N * Y21) (N * (Y22 * Yb12)))
+    (fromCols (Yb11 * (N * Y21)) (Yb11 * (N * (Y22 * Yb12)) + Yb12)) ?_ ?_
+  · convert key using 1
+    rw [← fromRows_fromCols_eq_fromBlocks]
+    simp only [Matrix.mul_fromCols, Matrix.mul_one, Matrix.mul_zero, fromCols_add_fromCols]
+    congr 2
+    · simp only [Matrix.mul_assoc]
+    · simp only [Matrix.mul_assoc, Matrix.mul_add, Matrix.add_mul, Matrix.mul_one, Matrix.one_mul,
+        zero_add]
+      abel
+    · simp only [Matrix.mul_assoc, add_zero]
+    · simp only [Matrix.mul_assoc, zero_add]
+      abel
+  · simp only [Matrix.mul_fromCols, Matrix.mul_one, Matrix.mul_zero, fromCols_add_fromCols]
+    congr 1
+    · conv_lhs => rw [hN']
+      simp only [Matrix.add_mul, Matrix.one_mul, Matrix.mul_assoc]
+    · conv_lhs => rw [hN']
+      simp only [Matrix.add_mul, Matrix.mul_add, Matrix.one_mul, Matrix.mul_assoc, zero_add]
+      abel
+  · simp only [Matrix.mul_fromCols, Matrix.mul_one, Matrix.mul_zero, fromCols_add_fromCols,
+      add_zero]
+
+/-- push-through: a right inverse `N` of `I - P Q` gives the right inverse `I + Q N P` of
+`I - Q P` (for square matrices right inverses are two-sided: `mul_eq_one_comm`). -/
+theorem push_through {a b : Type*} [Fintype a] [DecidableEq a] [Fintype b] [DecidableEq b]
+    (P : Matrix a b K) (Q : Matrix b a K) (N : Matrix a a K) (hN : (1 - P * Q) * N = 1) :
+    (1 - Q * P) * (1 + Q * N * P) = 1 := by
+  have hN' : P * (Q * N) = N - 1 := by
+    rw [← hN, Matrix.sub_mul, Matrix.one_mul, Matrix.mul_assoc]; abel
+  have : (1 - Q * P) * (1 + Q * N * P) = 1 + Q * (N - 1 - P * (Q * N)) * P := by
+    simp only [Matrix.sub_mul, Matrix.mul_sub, Matrix.mul_add, Matrix.add_mul, Matrix.mul_one,
+      Matrix.one_mul, Matrix.mul_assoc]
+    abel
+  rw [this, hN']
+  simp
+
+end lft
+
+section lftDyn
+
+variable {F : Type} [Field F] [DecidableEq F]
+
+/-- an ill-posed LFT (`det [[I, -D22], [-Dbar11, I]] = 0`) raises, for every partition on which
+the operation is defined. -/
+theorem lft_illposed (G H : DSS F) (nu ny : Nat)
+    (h : nu ≤ G.m ∧ nu ≤ H.p ∧ ny ≤ G.p ∧ ny ≤ H.m) (dt : Dt)
+    (h0 : (SS.lftF (G.lftUpper nu ny h.1 h.2.2.1) (H.lftLower nu ny h.2.1 h.2.2.2)).det = 0) :
+    DSS.lftSS G H nu ny h dt = .error .illPosed := by
+  simp [DSS.lftSS, h0]
+
+/-- a well-posed LFT returns the typed construction `SS.lft` of the partitioned operands with a
+two-sided inverse of `F` (the hypothesis `lft_resp` needs), re-typed to `Fin`; the state
+dimension is the sum of the operands', the I/O sizes are `(p - ny) + (p' - nu)` and
+`(m - nu) + (m' - ny)`, the timebase is the common one. -/
+theorem lft_wellposed (G H : DSS F) (nu ny : Nat)
+    (h : nu ≤ G.m ∧ nu ≤ H.p ∧ ny ≤ G.p ∧ ny ≤ H.m) (dt : Dt)
+    (h0 : (SS.lftF (G.lftUpper nu ny h.1 h.2.2.1) (H.lftLower nu ny h.2.1 h.2.2.2)).det ≠ 0) :
+    ∃ Finv, Finv * SS.lftF (G.lftUpper nu ny h.1 h.2.2.1) (H.lftLower nu ny h.2.1 h.2.2.2) = 1 ∧
+      SS.lftF (G.lftUpper nu ny h.1 h.2.2.1) (H.lftLower nu ny h.2.1 h.2.2.2) * Finv = 1 ∧
+      DSS.lftSS G H nu ny h dt = .ok ⟨G.n + H.n, (G.p - ny) + (H.p - nu), (G.m - nu) + (H.m - ny),
+        (SS.lft (G.lftUpper nu ny h.1 h.2.2.1) (H.lftLower nu ny h.2.1 h.2.2.2) Finv).flatS.flatIO,
+        dt⟩ := by
+  refine ⟨SS.invQ _, (invQ_spec _ h0).1, (invQ_spec _ h0).2, ?_⟩
+  simp [DSS.lftSS, h0, SS.ofTable_table]
+  rfl
+
+/-- the run-time entry point: explicit `nu`, `ny` (not the `-1` default) for which the slices of
+the code have the sizes `nu` / `ny` go to `lftSS` with the common timebase; every other explicit
+partition is rejected. -/
+theorem lft_dispatch (G : DSS F) (x : SOperand F) (nu ny : Nat) (dt : Dt)
+    (hdt : common G.dt (DSS.toSys x).dt = .ok dt) :
+    G.lft x nu ny =
+      if h : nu ≤ G.m ∧ nu ≤ (DSS.toSys x).p ∧ ny ≤ G.p ∧ ny ≤ (DSS.toSys x).m
+      then DSS.lftSS G (DSS.toSys x) nu ny h dt else .error .shape := by
+  have e1 : ¬ ((nu : Int) = -1) := by omega
+  have e2 : ¬ ((ny : Int) = -1) := by omega
+  simp only [DSS.lft, e1, e2, if_false, hdt]
+  simp [bind, Except.bind]
+
+end lftDyn
+
 /-- `append`: block diagonal -/
 theorem append_resp (G₁ : SS σ₁ ι₁ o₁ K) (G₂ : SS σ₂ ι₂ o₂ K) (s : K)
     {Y₁ : Matrix o₁ ι₁ K} {Y₂ : Matrix o₂ ι₂ K} (h₁ : G₁.Resp s Y₁) (h₂ : G₂.Resp s Y₂) :
@@ -250,5 +416,29 @@ theorem static_resp [IsEmpty σ] (D : Matrix o ι K) (s : K) :
 /-- state dimension of the sum / product / feedback / append is the sum of the operands'. -/
 theorem card_states_sum : Fintype.card (σ₁ ⊕ σ₂) = Fintype.card σ₁ + Fintype.card σ₂ :=
   Fintype.card_sum
+
+/-- non-vacuity of `lft_resp` / `lft_resp_inv`: two 1-state operands with poles at `-1`, all-ones
+`B` and `C`, `D = 0` above and `Dbar11 = 1` below, at `s = 0`: `F = [[1, 0], [-1, 1]]` has the
+inverse `[[1, 0], [1, 1]]`, the operands respond with `[[1, 1], [1, 1]]` and `[[2, 1], [1, 1]]`,
+and `1 - Y22 Yb11 = -1` has the inverse `N = -1` (so the closed loop responds with
+`[[-1, -1], [-1, 0]]`). -/
+example :
+    let c (x : ℚ) {a b : Type} : Matrix a b ℚ := Matrix.of fun _ _ => x
+    let G : SS Unit (Unit ⊕ Unit) (Unit ⊕ Unit) ℚ := ⟨c (-1), c 1, c 1, c 0⟩
+    let H : SS Unit (Unit ⊕ Unit) (Unit ⊕ Unit) ℚ :=
+      ⟨c (-1), c 1, c 1, fromBlocks (c 1) (c 0) (c 0) (c 0)⟩
+    let Finv : Matrix (Unit ⊕ Unit) (Unit ⊕ Unit) ℚ := fromBlocks (c 1) (c 0) (c 1) (c 1)
+    Finv * SS.lftF G H = 1 ∧ G.Resp 0 (fromBlocks (c 1) (c 1) (c 1) (c 1)) ∧
+      H.Resp 0 (fromBlocks (c 2) (c 1) (c 1) (c 1)) ∧
+      (1 - (c 1 : Matrix Unit Unit ℚ) * c 2) * c (-1) = 1 := by
+  intro c G H Finv
+  refine ⟨?_, ⟨c 1, ?_, ?_⟩, ⟨c 1, ?_, ?_⟩, ?_⟩
+  · ext (i | i) (j | j) <;>
+      simp [G, H, Finv, c, SS.lftF, Matrix.mul_apply, toBlocks₁₁, toBlocks₂₂]
+  · ext i j; simp [G, c, Matrix.mul_apply]
+  · ext (i | i) (j | j) <;> simp [G, c, Matrix.mul_apply]
+  · ext i j; simp [H, c, Matrix.mul_apply]
+  · ext (i | i) (j | j) <;> (simp [H, c, Matrix.mul_apply]; try norm_num)
+  · ext i j; simp [c, Matrix.mul_apply]; norm_num
 
 end CtrlVerif.C02
